@@ -12,6 +12,7 @@ import (
 	"flag"
 	"fmt"
 	"io"
+	"net"
 	"os"
 	"strings"
 	"time"
@@ -38,6 +39,9 @@ func hexOrDash(b []byte) string {
 var errE1 = errors.New("close-error-1")
 var errE2 = errors.New("close-error-2")
 
+// a timeout-classified error (net.Error with Timeout() == true)
+var errTO error = &net.OpError{Op: "read", Err: os.ErrDeadlineExceeded}
+
 func errClass(err error) string {
 	switch {
 	case err == nil:
@@ -46,6 +50,8 @@ func errClass(err error) string {
 		return "e1"
 	case errors.Is(err, errE2):
 		return "e2"
+	case err == errTO || errors.Is(err, os.ErrDeadlineExceeded):
+		return "to"
 	case errors.Is(err, context.Canceled), errors.Is(err, context.DeadlineExceeded):
 		return "ctx"
 	case err.Error() == "netty: channel closed": // netty.ErrChannelClosed (by text: the symbol does not exist before the fix)
@@ -89,6 +95,8 @@ func (o Op) String() string {
 		return "cl:" + o.Err
 	case "cx":
 		return fmt.Sprintf("cx:%d", o.N)
+	case "px":
+		return "px"
 	case "ia":
 		return "ia"
 	case "cw1", "cwv":
@@ -158,10 +166,12 @@ func runScenario(sc *Scenario, strat rt.Strategy) *rt.Controller {
 	}
 	pl := netty.NewPipeline()
 	var ch netty.Channel
+	parent, parentCancel := context.WithCancel(context.Background())
+	defer parentCancel()
 	if sc.Sync {
-		ch = netty.NewChannel()(1, context.Background(), pl, tr, ctlExec{c})
+		ch = netty.NewChannel()(1, parent, pl, tr, ctlExec{c})
 	} else {
-		ch = netty.NewAsyncWriteChannel(sc.Qcap, sc.Until)(1, context.Background(), pl, tr, ctlExec{c})
+		ch = netty.NewAsyncWriteChannel(sc.Qcap, sc.Until)(1, parent, pl, tr, ctlExec{c})
 	}
 	netty.NvAttach(pl, ch)
 	ctxs := make([]context.Context, sc.NCtx)
@@ -226,11 +236,15 @@ func runScenario(sc *Scenario, strat rt.Strategy) *rt.Controller {
 							ch.Close(errE1)
 						case "e2":
 							ch.Close(errE2)
+						case "to":
+							ch.Close(errTO)
 						default:
 							ch.Close(nil)
 						}
 					case "cx":
 						cancels[op.N]()
+					case "px":
+						parentCancel()
 					case "ia":
 						if ch.IsActive() {
 							n = 1
